@@ -24,12 +24,15 @@ type Prog struct {
 	// Funcs maps "Recv.Name" or "Name" to the declaration.
 	Funcs map[string]*ast.FuncDecl
 	// FuncObj maps a function object to its declaration.
-	FuncObj  map[*types.Func]*ast.FuncDecl
-	NFuncs   int
-	normPost bool
-	asMethod map[*ast.FuncDecl]bool // functions standing in for a method of their first parameter
-	Roles    map[string]string      // rule anchor name -> actual declaration name (renamed unexported helpers)
-	Arch     string
+	FuncObj      map[*types.Func]*ast.FuncDecl
+	NFuncs       int
+	normPost     bool
+	ivFrames     []*ivFrame // interval analysis: open loops (break/continue environments)
+	ivDepth      int
+	ivParamCache map[*ast.FuncDecl]ienv
+	asMethod     map[*ast.FuncDecl]bool // functions standing in for a method of their first parameter
+	Roles        map[string]string      // rule anchor name -> actual declaration name (renamed unexported helpers)
+	Arch         string
 }
 
 // load type-checks the package in dir. Any failure is an error: a check must
